@@ -35,7 +35,7 @@ Fixpoint assoc (c : N) (l : list N) : option N :=
 Definition is_regex_token (c : N) (first : bool) : bool :=
   mem c c_regex_tokens_always || (first && mem c c_regex_tokens_first).
 
-(* bool HasRegexTokens(const char *) *)
+(* bool HasRegexTokens(str) *)
 Fixpoint has_regex_tokens_aux (s : list N) (first : bool) : bool :=
   match s with
   | [] => false
@@ -61,7 +61,7 @@ Fixpoint unescape_aux (s : list N) (lastWasEscape : bool) : list N :=
   end.
 Definition unescape (s : list N) : list N := unescape_aux s false.
 
-(* bool CanWildcardStringMatchMultipleValues(const char *, bool * optRetOnlySpecialCharIsCommas):
+(* bool CanWildcardStringMatchMultipleValues(str, optRetOnlySpecialCharIsCommas):
    (result, *optRetOnlySpecialCharIsCommas) *)
 Fixpoint cw_loop (s : list N) (first prevEsc sawComma : bool) : bool * bool :=
   match s with
@@ -92,7 +92,7 @@ Fixpoint atoull_aux (s : list N) (acc : N) : N :=
   | c :: t => if is_digit c then atoull_aux t (acc * 10 + (c - 48)) else acc
   | [] => acc
   end.
-(* uint64 Atoull(const char *): the sum is formed in uint64 arithmetic, i.e. modulo 2^64 *)
+(* uint64 Atoull(str): the sum is formed in uint64 arithmetic, i.e. modulo 2^64 *)
 Definition atoull (s : list N) : N := (atoull_aux s 0) mod two64.
 Definition u32 (n : N) : N := n mod two32.
 
@@ -189,89 +189,133 @@ Definition regex_of_simple (str : list N) : list N :=
 
 Inductive rx := RxOk (m : list N -> bool) | RxErr.
 
+(* the StringMatcher object: every data member *)
+Record sm := mkS {
+  s_pattern : list N;                   (* _pattern *)
+  s_valid : bool;                       (* STRINGMATCHER_FLAG_REGEXVALID *)
+  s_negate : bool;                      (* STRINGMATCHER_FLAG_NEGATE *)
+  s_multi : bool;                       (* STRINGMATCHER_FLAG_CANMATCHMULTIPLEVALUES *)
+  s_simple : bool;                      (* STRINGMATCHER_FLAG_SIMPLE *)
+  s_uvlist : bool;                      (* STRINGMATCHER_FLAG_UVLIST *)
+  s_ranges : list (N * N);              (* _ranges *)
+  s_regexp : option (list N -> bool)    (* _regExp: the compiled regex (None: never compiled or regfree'd) *)
+}.
+
+(* a default-constructed StringMatcher *)
+Definition sm_init : sm := mkS [] false false false false false [] None.
+
+Definition set_pat (st : sm) (p : list N) (simple : bool) : sm :=
+  mkS p (s_valid st) (s_negate st) (s_multi st) simple (s_uvlist st) (s_ranges st) (s_regexp st).
+Definition set_multi (st : sm) (b : bool) : sm :=
+  mkS (s_pattern st) (s_valid st) (s_negate st) b (s_simple st) (s_uvlist st) (s_ranges st) (s_regexp st).
+Definition set_negate (st : sm) (b : bool) : sm :=      (* also the public SetNegate() *)
+  mkS (s_pattern st) (s_valid st) b (s_multi st) (s_simple st) (s_uvlist st) (s_ranges st) (s_regexp st).
+Definition set_uvlist (st : sm) (b : bool) : sm :=
+  mkS (s_pattern st) (s_valid st) (s_negate st) (s_multi st) (s_simple st) b (s_ranges st) (s_regexp st).
+Definition set_ranges (st : sm) (r : list (N * N)) : sm :=
+  mkS (s_pattern st) (s_valid st) (s_negate st) (s_multi st) (s_simple st) (s_uvlist st) r (s_regexp st).
+Definition set_regex (st : sm) (valid : bool) (f : option (list N -> bool)) : sm :=
+  mkS (s_pattern st) valid (s_negate st) (s_multi st) (s_simple st) (s_uvlist st) (s_ranges st) f.
+
+(* if (REGEXVALID) {regfree(&_regExp); clear REGEXVALID} *)
+Definition free_regex (st : sm) : sm := if s_valid st then set_regex st false None else st.
+
+Definition is_nil {A} (l : list A) : bool := match l with [] => true | _ => false end.
+
+Definition strip_negate (p : list N) : bool * list N :=
+  match p with
+  | c :: t => if c =? c_sp_negate_char then (true, t) else (false, p)
+  | [] => (false, p)
+  end.
+
+(* simple mode, after the optional '~': (the clauses appended to _ranges, regexPattern, the
+   remaining str); regexPattern = [] stands for the empty String *)
+Definition simple_body (str : list N) : list (N * N) * list N * list N :=
+  match str with
+  | c :: raw =>
+      if c =? c_sp_rawregex_char then ([], [], raw)
+      else
+        let ranges := if c =? c_sp_range_open then parse_ranges raw else [] in
+        if is_nil ranges then ([], regex_of_simple str, str) else (ranges, [], str)
+  | [] => ([], regex_of_simple [], [])
+  end.
+
+(* the string given to regcomp by SetPattern(p, simple), if any *)
+Definition regex_string (p : list N) (simple : bool) : option (list N) :=
+  if simple then
+    let '(ranges, regexPattern, str) := simple_body (snd (strip_negate p)) in
+    if is_nil ranges then
+      let regstr := if is_nil regexPattern then str else regexPattern in
+      if is_nil regstr then None else Some regstr
+    else None
+  else if is_nil p then None else Some p.
+
 Section WithEngine.
   (* regcomp(&r, re, REG_EXTENDED) followed by regexec(&r, s, 0, NULL, 0) != REG_NOMATCH *)
   Variable engine : list N -> rx.
 
-  Record matcher := mkM {
-    m_status : bool;                     (* SetPattern returned B_NO_ERROR *)
-    m_negate : bool;                     (* STRINGMATCHER_FLAG_NEGATE *)
-    m_multi : bool;                      (* STRINGMATCHER_FLAG_CANMATCHMULTIPLEVALUES *)
-    m_uvlist : bool;                     (* STRINGMATCHER_FLAG_UVLIST *)
-    m_ranges : list (N * N);             (* _ranges *)
-    m_regex : option (list N -> bool)    (* Some = STRINGMATCHER_FLAG_REGEXVALID, with the compiled _regExp *)
-  }.
+  (* status_t StringMatcher::SetPattern(const String & s, bool isSimple), statement by statement,
+     on an object in ANY prior state [st0]; returns the new state and "status is B_NO_ERROR" *)
+  Definition set_pattern (st0 : sm) (p : list N) (simple : bool) : sm * bool :=
+    let st := set_pat st0 p simple in                                   (* _pattern = s; SIMPLE bit *)
+    let (multi, onlyCommas) :=
+      if simple then can_match_multiple p else (has_regex_tokens p, false) in
+    let st := set_multi st multi in
+    let st := set_ranges st [] in                                       (* _ranges.Clear() *)
+    let '(st, regexPattern, str) :=
+      if simple then
+        let (neg, str) := strip_negate p in
+        let st := set_negate st neg in
+        let '(ranges, regexPattern, str) := simple_body str in
+        (set_ranges st (s_ranges st ++ ranges), regexPattern, str)      (* _ranges.AddTail(..) per clause *)
+      else (set_negate st false, [], p) in
+    let st := free_regex st in
+    let st := set_uvlist st (onlyCommas && is_nil (s_ranges st) && negb (s_negate st)) in
+    if is_nil (s_ranges st) then
+      let regstr := if is_nil regexPattern then str else regexPattern in
+      if is_nil regstr then (st, true)
+      else match engine regstr with
+           | RxOk m => (set_regex st true (Some m), true)
+           | RxErr => (set_regex st false (s_regexp st), false)
+           end
+    else (st, true).
 
-  Definition strip_negate (p : list N) : bool * list N :=
-    match p with
-    | c :: t => if c =? c_sp_negate_char then (true, t) else (false, p)
-    | [] => (false, p)
-    end.
+  (* void Reset() *)
+  Definition sm_reset (st : sm) : sm :=
+    let st := free_regex st in
+    mkS [] false false false false false [] (s_regexp st).
 
-  (* the string given to regcomp, if any ([None]: ranges, or nothing to compile) *)
-  Definition regex_string (p : list N) : option (list N) :=
-    let (_, str) := strip_negate p in
-    match str with
-    | c :: raw =>
-        if c =? c_sp_rawregex_char then (match raw with [] => None | _ => Some raw end)
-        else
-          let ranges := if c =? c_sp_range_open then parse_ranges raw else [] in
-          match ranges with [] => Some (regex_of_simple str) | _ => None end
-    | [] => Some (regex_of_simple [])
-    end.
+  (* operator=(rhs): SetPattern(rhs._pattern, rhs SIMPLE bit); SetNegate(rhs.IsNegate()) *)
+  Definition sm_assign (st rhs : sm) : sm :=
+    set_negate (fst (set_pattern st (s_pattern rhs) (s_simple rhs))) (s_negate rhs).
 
-  Definition pattern_ranges (p : list N) : list (N * N) :=
-    let (_, str) := strip_negate p in
-    match str with
-    | c :: raw =>
-        if c =? c_sp_rawregex_char then []
-        else if c =? c_sp_range_open then parse_ranges raw else []
-    | [] => []
-    end.
+  (* ObjectPool::ReleaseObject followed by ObtainObject of the same node: *obj = default object *)
+  Definition sm_recycle (st : sm) : sm := sm_assign st sm_init.
 
-  (* status_t StringMatcher::SetPattern(const String & s, bool isSimple = true) on a fresh object *)
-  Definition set_pattern (p : list N) : matcher :=
-    let (multi, onlyCommas) := can_match_multiple p in
-    let (neg, _) := strip_negate p in
-    let ranges := pattern_ranges p in
-    let uv := onlyCommas && (match ranges with [] => true | _ => false end) && negb neg in
-    match ranges with
-    | _ :: _ => mkM true neg multi uv ranges None
-    | [] =>
-        match regex_string p with
-        | None => mkM true neg multi uv [] None
-        | Some re =>
-            match engine re with
-            | RxOk m => mkM true neg multi uv [] (Some m)
-            | RxErr => mkM false neg multi uv [] None
-            end
-        end
-    end.
-
-  (* bool StringMatcher::Match(const char *) const *)
+  (* bool StringMatcher::Match(str) const *)
   Definition in_range (id : N) (r : N * N) : bool := (fst r <=? id) && (id <=? snd r).
 
-  Definition match_raw (m : matcher) (s : list N) : bool :=
-    match m_ranges m with
-    | [] => match m_regex m with Some f => f s | None => false end
-    | rs => match s with
-            | c :: _ => if is_digit c then existsb (in_range (u32 (atoull s))) rs else false
-            | [] => false
-            end
-    end.
+  Definition match_raw (st : sm) (s : list N) : bool :=
+    if is_nil (s_ranges st) then
+      (if s_valid st then match s_regexp st with Some f => f s | None => false end else false)
+    else match s with
+         | c :: _ => if is_digit c then existsb (in_range (u32 (atoull s))) (s_ranges st) else false
+         | [] => false
+         end.
 
-  Definition matches (m : matcher) (s : list N) : bool :=
-    if m_negate m then negb (match_raw m s) else match_raw m s.
+  Definition matches (st : sm) (s : list N) : bool :=
+    if s_negate st then negb (match_raw st s) else match_raw st s.
 
   (* bool IsPatternUnique() const *)
-  Definition is_unique (m : matcher) : bool :=
-    (match m_ranges m with [] => true | _ => false end) && negb (m_multi m || m_negate m).
+  Definition is_unique (st : sm) : bool := is_nil (s_ranges st) && negb (s_multi st || s_negate st).
 
-  Definition is_uvlist (m : matcher) : bool := m_uvlist m.
+  (* bool IsPatternListOfUniqueValues() const *)
+  Definition is_uvlist (st : sm) : bool := s_uvlist st.
 
-  (* the whole public path: construct from a pattern, match a subject *)
-  Definition sm_match (p s : list N) : bool := matches (set_pattern p) s.
-  Definition sm_unique (p : list N) : bool := is_unique (set_pattern p).
+  (* the whole public path on a fresh object (simple syntax) *)
+  Definition sm_of (p : list N) : sm := fst (set_pattern sm_init p true).
+  Definition sm_match (p s : list N) : bool := matches (sm_of p) s.
+  Definition sm_unique (p : list N) : bool := is_unique (sm_of p).
 End WithEngine.
 
 (* the engine obtained from the Ere.v model ([CUnsupported] is outside every claim; it is
@@ -283,8 +327,8 @@ Definition ere_engine (re : list N) : rx :=
   | CUnsupported => RxErr
   end.
 
-Definition regex_supported (p : list N) : bool :=
-  match regex_string p with
+Definition regex_supported (p : list N) (simple : bool) : bool :=
+  match regex_string p simple with
   | None => true
   | Some re => match ere_compile re with CUnsupported => false | _ => true end
   end.
